@@ -436,6 +436,7 @@ func (e *Engine) callees(in ssa.Instruction) []*ssa.Function {
 				return nil
 			}
 			out = append(out, callee)
+			out = append(out, e.funcArgCallees(cc)...)
 			return out
 		}
 		// external function: callbacks through function / interface arguments
@@ -444,6 +445,20 @@ func (e *Engine) callees(in ssa.Instruction) []*ssa.Function {
 				// the dynamic type is known at the call site
 				out = append(out, e.methodsOfConcrete(mi.X.Type(), a.Type())...)
 				continue
+			}
+			if _, isSig := a.Type().Underlying().(*types.Signature); isSig {
+				switch v := a.(type) {
+				case *ssa.MakeClosure:
+					out = append(out, v.Fn.(*ssa.Function))
+					continue
+				case *ssa.Function:
+					if inModule(v) {
+						out = append(out, v)
+					}
+					continue
+				case *ssa.Const:
+					continue
+				}
 			}
 			out = append(out, e.callbacksOf(a.Type(), 0)...)
 		}
@@ -457,8 +472,45 @@ func (e *Engine) callees(in ssa.Instruction) []*ssa.Function {
 		return nil
 	}
 	// dynamic call of a function value
+	if _, isParam := cc.Value.(*ssa.Parameter); isParam {
+		// a call of the enclosing function's own func-typed parameter: its
+		// effect is accounted for at each call site of the enclosing function,
+		// where the actual function value is visible (see funcArgCallees).
+		// Assumption: such parameters are only called, not stored for later.
+		return out
+	}
+	if mc, ok := cc.Value.(*ssa.MakeClosure); ok {
+		return append(out, mc.Fn.(*ssa.Function))
+	}
 	if sig, ok := cc.Value.Type().Underlying().(*types.Signature); ok {
 		out = append(out, e.funcsWithSig(sig)...)
+	}
+	return out
+}
+
+// funcArgCallees: functions passed as arguments at a call of a module function
+// may be called by it.
+func (e *Engine) funcArgCallees(cc *ssa.CallCommon) []*ssa.Function {
+	var out []*ssa.Function
+	for _, a := range cc.Args {
+		sig, ok := a.Type().Underlying().(*types.Signature)
+		if !ok {
+			continue
+		}
+		switch v := a.(type) {
+		case *ssa.MakeClosure:
+			out = append(out, v.Fn.(*ssa.Function))
+		case *ssa.Function:
+			if inModule(v) {
+				out = append(out, v)
+			}
+		case *ssa.Parameter:
+			// forwarded parameter: accounted for at the caller's own call sites
+		case *ssa.Const:
+			// nil function
+		default:
+			out = append(out, e.funcsWithSig(sig)...)
+		}
 	}
 	return out
 }
@@ -530,7 +582,11 @@ func (e *Engine) callbacksOf(t types.Type, depth int) []*ssa.Function {
 		if u.NumMethods() == 0 {
 			// interface{}: fmt verbs may call String/Error/Format of module types
 			for _, name := range []string{"String", "Error", "GoString", "Format"} {
-				out = append(out, e.methodsByName[name]...)
+				for _, m := range e.methodsByName[name] {
+					if fmtMethod(m) {
+						out = append(out, m)
+					}
+				}
 			}
 		}
 	case *types.Signature:
@@ -772,8 +828,7 @@ func (e *Engine) methodsOfConcrete(t types.Type, iface types.Type) []*ssa.Functi
 			continue
 		}
 		if it.NumMethods() == 0 {
-			switch fn.Name() {
-			case "String", "Error", "GoString", "Format":
+			if fmtMethod(fn) {
 				out = append(out, fn)
 			}
 			continue
@@ -785,4 +840,17 @@ func (e *Engine) methodsOfConcrete(t types.Type, iface types.Type) []*ssa.Functi
 		}
 	}
 	return out
+}
+
+// fmtMethod: methods package fmt may call on an operand: String/Error/GoString
+// with signature func() string, or Format(fmt.State, rune).
+func fmtMethod(fn *ssa.Function) bool {
+	sig := fn.Signature
+	switch fn.Name() {
+	case "String", "Error", "GoString":
+		return sig.Params().Len() == 0 && sig.Results().Len() == 1 && sig.Results().At(0).Type().String() == "string"
+	case "Format":
+		return sig.Params().Len() == 2 && sig.Results().Len() == 0
+	}
+	return false
 }
